@@ -95,8 +95,10 @@ class RJust(SV):
 
 
 class Num(SV):
-    def __init__(self, src):
+    def __init__(self, src, node=None, env=None):
         self.src = src
+        self.node = node          # AST of the number written
+        self.env = env            # the abstract environment at that point
 
     def key(self):
         return ('num', self.src)
@@ -198,9 +200,12 @@ class Lengths:
 
 # ------------------------------------------------------------ the writer
 class Line:
-    def __init__(self, pieces, section, lineno, guards):
+    def __init__(self, pieces, section, lineno, guards, ctx=()):
         self.pieces, self.section = pieces, section
         self.lineno, self.guards = lineno, guards
+        # enclosing constructs, outermost first: ('for', target, iter node,
+        # symbol) | ('if', test node, polarity)
+        self.ctx = list(ctx)
 
 
 class WriterExec:
@@ -216,6 +221,7 @@ class WriterExec:
 
     # ---- expressions
     def ev(self, n, env):
+        self._env = env
         if isinstance(n, ast.Constant):
             if isinstance(n.value, str):
                 return Const(n.value)
@@ -304,7 +310,7 @@ class WriterExec:
                 raise Unsupported('left-justified format %r' % f)
             body = RJust(arg, int(width)) if width else arg
         elif conv == 'E' and space == ' ' and width == '7' and prec == '5':
-            body = Num(self.seg(n.right))
+            body = Num(self.seg(n.right), n.right, dict(self._env))
         else:
             raise Unsupported('number format %r' % f)
         return Cat([Const(pre), body, Const(post)])
@@ -312,7 +318,7 @@ class WriterExec:
     # ---- statements
     def run(self):
         body = list(self.fn.body)
-        st = {'env': {}, 'partial': [], 'guards': []}
+        st = {'env': {}, 'partial': [], 'guards': [], 'ctx': []}
         self.block(body, [st])
 
     def block(self, stmts, states):
@@ -325,7 +331,7 @@ class WriterExec:
 
     def copy(self, st):
         return {'env': dict(st['env']), 'partial': list(st['partial']),
-                'guards': list(st['guards'])}
+                'guards': list(st['guards']), 'ctx': list(st['ctx'])}
 
     def write(self, sv, st, lineno):
         if not isinstance(sv, SV):
@@ -353,7 +359,8 @@ class WriterExec:
         if pcs and isinstance(pcs[0], Const) and pcs[0].s.startswith('NAME') \
                 and sec is None:
             sec = 'NAME'
-        self.lines.append(Line(pcs, sec, lineno, list(st['guards'])))
+        self.lines.append(Line(pcs, sec, lineno, list(st['guards']),
+                               list(st['ctx'])))
 
     def stmt(self, s, st):
         if isinstance(s, ast.Expr):
@@ -376,6 +383,8 @@ class WriterExec:
             t = self.seg(s.test)
             a['guards'].append(t)
             b['guards'].append('not (%s)' % t)
+            a['ctx'].append(('if', s.test, True, dict(st['env'])))
+            b['ctx'].append(('if', s.test, False, dict(st['env'])))
             # `if x.name:` -- the name is non-empty in the true arm
             tv = self.ev(s.test, st['env'])
             if isinstance(tv, Sym):
@@ -384,6 +393,9 @@ class WriterExec:
                 a['nonempty'] = a.get('nonempty', []) + [tv.key()]
             ra = self.block(s.body, [a])
             rb = self.block(s.orelse, [b])
+            for o_ in ra + rb:
+                # ctx is the lexical nesting of the write, not the path
+                o_['ctx'] = list(st['ctx'])
             return ra + rb
         if isinstance(s, ast.For):
             if st['partial']:
@@ -401,6 +413,7 @@ class WriterExec:
                         'var', '%s@%d' % (s.target.id, s.lineno)) \
                         if self.int_iter(it, st['env']) else Opaque(
                             self.seg(it))
+            b['ctx'].append(('for', s.target, s.iter, dict(b['env'])))
             outs = self.block(s.body, [b])
             for o in outs:
                 if o['partial']:
